@@ -1,9 +1,11 @@
 (* Model of the lowering of IDL literals to Rust expressions in pilota-build/src/middle/context.rs:
 
      Context::default_val (447)      -> default_val_lit
-     Context::lit_as_rvalue (462)    -> lit_as_rvalue      (map literals / `[]` at a map type, only at the top)
-     Context::ident_into_ty (530)    -> ident_into_ty      (const references, enum members)
-     Context::lit_into_ty (590)      -> lit_into_ty        (everything else; DISPATCHES on the regenerated arm list)
+     Context::lit_as_rvalue (462)    -> lit_as_rvalue = lower true   (map literals / `[]` at a map type, set consts)
+     Context::ident_into_ty (530)    -> ident_into_ty      (const references, enum members; through typedef'd targets)
+     Context::lit_into_ty (590)      -> lit_into_ty = lower false    (everything else)
+                                        both DISPATCH on the regenerated arm lists; members of container and struct
+                                        literals and typedef'd targets go through lit_as_rvalue again
      Context::def_lit (814)          -> def_lit            (the value a `const` item denotes)
      db::codegen_ty / TyTransformer  -> item_cty, const_cty, ident_ty_of_const
      ImplDefaultPlugin (plugin/mod.rs 335) -> rust_default (Default::default() of an emitted type)
@@ -260,13 +262,14 @@ Section Loops.
       | x :: r => let+ a := rec x inner in let+ b := go r in LOk (a :: b)
       end.
 
-  (* mk_map: key then value, pairs left to right *)
+  (* mk_map: key (through [reck] = lit_into_ty) then value (through [rec] = lit_as_rvalue), pairs left to right *)
+  Variable reck : lit -> cty -> lres (gval * bool).
   Definition low_pairs (kt vt : cty) : list (lit * lit) -> lres (list (gval * gval)) :=
     fix go (m : list (lit * lit)) : lres (list (gval * gval)) :=
       match m with
       | [] => LOk []
       | (k, v) :: r =>
-          let+ a := rec k kt in let+ b := rec v vt in let+ t := go r in LOk ((fst a, fst b) :: t)
+          let+ a := reck k kt in let+ b := rec v vt in let+ t := go r in LOk ((fst a, fst b) :: t)
       end.
 
   (* struct literal: `m.iter().find_map(|(k, v)| { let k = match k { String(s) => s, _ => panic!() }; if k == name {Some(v)} .. })`
@@ -296,6 +299,7 @@ Section Model.
     | CFastStr => Some CPFastStr | CString => Some CPString | CStr => Some CPStr | CVoid => Some CPVoid | CU8 => Some CPU8
     | CBool => Some CPBool | CI8 => Some CPI8 | CI16 => Some CPI16 | CI32 => Some CPI32 | CI64 => Some CPI64
     | CF32 => Some CPF32 | CF64 => Some CPF64 | COrderedF64 => Some CPOrderedF64 | CUuid => Some CPUuid | CBytes => Some CPBytes
+    | CLazyStaticRef (CMap _ _) | CLazyStaticRef (CBTreeMap _ _) => Some CPLazyMap
     | CLazyStaticRef _ => Some CPLazyStaticRef | CStaticRef _ => Some CPStaticRef | CVec _ => Some CPVec
     | CArray _ => Some CPArray | CSet _ => Some CPSet | CBTreeSet _ => Some CPBTreeSet | CMap _ _ => Some CPMap
     | CBTreeMap _ _ => Some CPBTreeMap | CArc _ => Some CPArc
@@ -350,25 +354,43 @@ Section Model.
     | [] => O
     | (alts, _) :: r => if existsb (fun '(x, y) => cmatch x a && cmatch y b) alts then O else Datatypes.S (select2 r a b)
     end.
+  Definition flag_of2 (arms : list (list (cpat * cpat) * flagk)) (i : nat) (dyn : bool) : bool :=
+    match nth_error arms i with Some (_, FTrue) => true | Some (_, FFalse) => false | _ => dyn end.
 
-  (* ident_into_ty: [v] is the value the path denotes *)
+  Definition is_nt (ty : cty) : bool := match ckind ty with Some CPAdtNewType => true | _ => false end.
+
+  (* does [it] occur in the typedef chain of [ty] (ty, its target, the target's target, ..)? *)
+  Fixpoint in_chain (fuel : nat) (it ty : cty) : bool :=
+    cty_eqb it ty ||
+    match fuel, ty with
+    | Datatypes.S f, CAdt n => match item n with Some (INewType a) => in_chain f it (item_cty a) | _ => false end
+    | _, _ => false
+    end.
+
+  (* ident_into_ty: [v] is the value the path denotes.  Rust tests `ident_ty == target`, then the NewType arm recurses at
+     the aliased type (wrapping the result in the newtype: same value, same flag); so: the path itself as soon as some
+     level of the target's typedef chain IS the path's type, else the conversion arms at the end of the chain. *)
   Definition ident_into_ty (ident_ty target : cty) (v : lres gval) : lres (gval * bool) :=
-    if cty_eqb ident_ty target then (let+ x := v in LOk (x, true))
+    if in_chain pfuel ident_ty target then (let+ x := v in LOk (x, true))
     else
-      match ckind ident_ty, ckind target with
+      let fin := peel pfuel target in
+      match ckind ident_ty, ckind fin with
       | Some ik, Some tk =>
-          match select2 ident_into_ty_arms ik tk with
-          | 0%nat =>                                     (* (Str, FastStr): FastStr::from_static_str(path) *)
-              let+ x := v in LOk (x, true)
-          | 1%nat =>                                     (* (Adt Enum, I64 | I32 | I16 | I8): (path.inner() as iN) *)
+          let i := select2 ident_into_ty_arms ik tk in
+          let fl := flag_of2 ident_into_ty_arms i in
+          match i with
+          | 0%nat => LErr EFuel                          (* still a newtype at the end of the chain: cyclic typedefs *)
+          | 1%nat | 2%nat =>                             (* (Str, FastStr): from_static_str(path); (Str, String): path.to_string() *)
+              let+ x := v in LOk (x, fl true)
+          | 3%nat =>                                     (* (Adt Enum, I64 | I32 | I16 | I8): (path.inner() as iN) *)
               let+ x := v in
               match x with
               | GEnum z =>
-                  match target with
-                  | CI64 => LOk (GI64 (wrap 64 z), true)
-                  | CI32 => LOk (GI32 (wrap 32 z), true)
-                  | CI16 => LOk (GI16 (wrap 16 z), true)
-                  | CI8 => LOk (GI8 (wrap 8 z), true)
+                  match fin with
+                  | CI64 => LOk (GI64 (wrap 64 z), fl true)
+                  | CI32 => LOk (GI32 (wrap 32 z), fl true)
+                  | CI16 => LOk (GI16 (wrap 16 z), fl true)
+                  | CI8 => LOk (GI8 (wrap 8 z), fl true)
                   | _ => LErr ENoValue                   (* unreachable!() *)
                   end
               | _ => LErr ENoValue                       (* a union variant / a union-typed const has no .inner() *)
@@ -384,11 +406,21 @@ Section Model.
 
     Definition const_flag (l : list (gval * bool)) : bool := forallb snd l.
 
-    (* lit_into_ty.  Path literals take the first arm whatever the type; for every other literal the NewType arm is
-       taken as long as the type is a newtype (peel), then the arm is selected from the REGENERATED list by the kinds of
-       literal and type, exactly as Rust's match does (first arm that matches).  The bodies re-inspect literal and type;
-       a shape the selected arm cannot have is answered like the fall-through. *)
-    Fixpoint lit_into_ty (l : lit) (ty : cty) {struct l} : lres (gval * bool) :=
+    (* which arm of lit_as_rvalue takes the pair, if lit_as_rvalue is asked at all ([en]); else its fall-through *)
+    Definition rv_index (en : bool) (lk : lpat) (ck : cpat) : nat :=
+      if en then select lit_as_rvalue_arms lk ck else length lit_as_rvalue_arms.
+
+    (* lit_as_rvalue ([top] = true) and lit_into_ty ([top] = false) in one structural recursion over the literal.
+       Path literals take the first arm of lit_into_ty whatever the type (no arm of lit_as_rvalue asks for a path).
+       For every other literal: lit_as_rvalue tries its own arms and falls through to lit_into_ty; lit_into_ty's NewType
+       arm, `(l, Adt NewType(inner_ty)) => self.lit_as_rvalue(l, inner_ty)`, hands the SAME literal back to
+       lit_as_rvalue at the aliased type.  So the literal is looked at, at the end of the typedef chain ([peel]), first
+       by lit_as_rvalue's arms unless we entered through lit_into_ty at a type that is no newtype ([en]), then by
+       lit_into_ty's.  Arms are selected from the REGENERATED lists by the kinds of literal and type, as Rust's match
+       does (first arm that matches); the bodies re-inspect literal and type, and a shape the selected arm cannot have
+       is answered like the fall-through.  Members of container / struct literals: lit_as_rvalue; map keys and the
+       elements of a const Array: lit_into_ty. *)
+    Fixpoint lower (top : bool) (l : lit) (ty : cty) {struct l} : lres (gval * bool) :=
       match l with
       | LMember e m =>
           match item e with
@@ -406,14 +438,66 @@ Section Model.
           | None => LPanic PUnwrap
           end
       | _ =>
+          let en := top || is_nt ty in
           let ty' := peel pfuel ty in
           match ckind ty' with
           | None => LPanic PUnwrap
           | Some ck =>
+              let r := rv_index en (lkind l) ck in
+              let rfl := flag_of lit_as_rvalue_arms r false in
+              match r with
+              | 0%nat =>                                    (* (Map, LazyStaticRef(map)): mk_map *)
+                  match l, ty' with
+                  | LMap m, CLazyStaticRef (CMap kt vt) | LMap m, CLazyStaticRef (CBTreeMap kt vt) =>
+                      let+ kvs :=
+                        (fix go (m : list (lit * lit)) : lres (list (gval * gval)) :=
+                           match m with
+                           | [] => LOk []
+                           | (k, v) :: r =>
+                               let+ a := lower false k kt in let+ b := lower true v vt in let+ t := go r in
+                               LOk ((fst a, fst b) :: t)
+                           end) m in
+                      LOk (GMap kvs, rfl)
+                  | LMap _, _ => LPanic PInvalidMapType
+                  | _, _ => LPanic PUnexpectedLiteral
+                  end
+              | 1%nat | 2%nat =>                            (* (Map, Map | BTreeMap): mk_map *)
+                  match l, ty' with
+                  | LMap m, CMap kt vt | LMap m, CBTreeMap kt vt =>
+                      let+ kvs :=
+                        (fix go (m : list (lit * lit)) : lres (list (gval * gval)) :=
+                           match m with
+                           | [] => LOk []
+                           | (k, v) :: r =>
+                               let+ a := lower false k kt in let+ b := lower true v vt in let+ t := go r in
+                               LOk ((fst a, fst b) :: t)
+                           end) m in
+                      LOk (GMap kvs, rfl)
+                  | _, _ => LPanic PUnexpectedLiteral
+                  end
+              | 3%nat | 5%nat | 6%nat =>                    (* (List, LazyStaticRef(map) | Map | BTreeMap): assert!(l.is_empty()) *)
+                  match l with
+                  | LList [] => LOk (GMap [], rfl)
+                  | LList (_ :: _) => LPanic PAssertEmpty
+                  | _ => LPanic PUnexpectedLiteral
+                  end
+              | 4%nat =>                                    (* (List, LazyStaticRef(set)): `(self.lit_into_ty(lit, set)?.0, false)` *)
+                  match l, ty' with
+                  | LList els, CLazyStaticRef (CSet t) | LList els, CLazyStaticRef (CBTreeSet t) =>
+                      let+ xs :=
+                        (fix go (els : list lit) : lres (list (gval * bool)) :=
+                           match els with
+                           | [] => LOk []
+                           | x :: r => let+ a := lower true x t in let+ b := go r in LOk (a :: b)
+                           end) els in
+                      LOk (GSet (map fst xs), rfl)
+                  | _, _ => LPanic PUnexpectedLiteral      (* db::codegen_ty wraps only sets and maps in a LazyStaticRef *)
+                  end
+              | _ =>                                        (* fall-through: lit_into_ty's arms *)
               let i := select lit_into_ty_arms (lkind l) ck in
               let fl := flag_of lit_into_ty_arms i in
               match i with
-              | 1%nat | 2%nat | 3%nat | 21%nat =>           (* (String, Str | String | FastStr | Bytes) *)
+              | 1%nat | 2%nat | 3%nat | 22%nat =>           (* (String, Str | String | FastStr | Bytes) *)
                   match l with
                   | LString s => let+ v := string_value s in LOk (v, fl true)
                   | _ => LPanic PUnexpectedLiteral
@@ -422,7 +506,7 @@ Section Model.
               | 5%nat => match l with LInt z => LOk (GI16 z, fl true) | _ => LPanic PUnexpectedLiteral end
               | 6%nat => match l with LInt z => LOk (GI32 z, fl true) | _ => LPanic PUnexpectedLiteral end
               | 7%nat => match l with LInt z => LOk (GI64 z, fl true) | _ => LPanic PUnexpectedLiteral end
-              | 8%nat | 9%nat =>                            (* (Int, F32) / (Int, F64): `let f = ( *i) as <cast>; "{f}f32|f64"` *)
+              | 8%nat | 9%nat | 10%nat =>                   (* (Int, F32 | F64 | OrderedF64): `let f = ( *i) as <cast>; "{f}f32|f64"` *)
                   match l with
                   | LInt z =>
                       match find (fun '(t, _) => cpat_eqb t ck) int_float_casts with
@@ -433,7 +517,7 @@ Section Model.
                       end
                   | _ => LPanic PUnexpectedLiteral
                   end
-              | 10%nat =>                                   (* (Int, Adt Enum): the member whose discriminant is i *)
+              | 11%nat =>                                   (* (Int, Adt Enum): the member whose discriminant is i *)
                   match l, ty' with
                   | LInt z, CAdt n =>
                       match item n with
@@ -444,13 +528,13 @@ Section Model.
                       end
                   | _, _ => LPanic PUnexpectedLiteral
                   end
-              | 11%nat | 12%nat =>                          (* (Float, F64 | OrderedF64) *)
+              | 12%nat | 13%nat =>                          (* (Float, F64 | OrderedF64): f64_literal(parse) -- an infinity is f64::INFINITY *)
                   match l with
                   | LFloat s => match parse_f64 s with Some b => LOk (GDouble b, fl true) | None => LPanic PParseFloat end
                   | _ => LPanic PUnexpectedLiteral
                   end
-              | 13%nat => LErr EFuel                        (* still a newtype after peel: cyclic typedefs *)
-              | 14%nat =>                                   (* (Map, StaticRef(map)): def_lit("INNER_MAP", lit, LazyStaticRef(map)) -> mk_map *)
+              | 14%nat => LErr EFuel                        (* still a newtype after peel: cyclic typedefs *)
+              | 15%nat =>                                   (* (Map, StaticRef(map)): def_lit("INNER_MAP", lit, LazyStaticRef(map)) -> mk_map *)
                   match l, ty' with
                   | LMap m, CStaticRef (CMap kt vt) | LMap m, CStaticRef (CBTreeMap kt vt) =>
                       let+ kvs :=
@@ -458,23 +542,35 @@ Section Model.
                            match m with
                            | [] => LOk []
                            | (k, v) :: r =>
-                               let+ a := lit_into_ty k kt in let+ b := lit_into_ty v vt in let+ t := go r in
+                               let+ a := lower false k kt in let+ b := lower true v vt in let+ t := go r in
                                LOk ((fst a, fst b) :: t)
                            end) m in
                       LOk (GMap kvs, fl false)
                   | LMap _, _ => LPanic PInvalidMapType
                   | _, _ => LPanic PUnexpectedLiteral
                   end
-              | 15%nat | 16%nat | 17%nat | 18%nat =>        (* (List, Array | Vec | Set | BTreeSet) *)
+              | 16%nat =>                                   (* (List, Array): elements through lit_into_ty *)
+                  match l, ty' with
+                  | LList els, CArray inner =>
+                      let+ xs :=
+                        (fix go (els : list lit) : lres (list (gval * bool)) :=
+                           match els with
+                           | [] => LOk []
+                           | x :: r => let+ a := lower false x inner in let+ b := go r in LOk (a :: b)
+                           end) els in
+                      LOk (GList (map fst xs), fl (const_flag xs))
+                  | _, _ => LPanic PUnexpectedLiteral
+                  end
+              | 17%nat | 18%nat | 19%nat =>                 (* (List, Vec | Set | BTreeSet): list_stream, elements through lit_as_rvalue *)
                   match l with
                   | LList els =>
-                      match (match ty' with CArray t | CVec t | CSet t | CBTreeSet t => Some t | _ => None end) with
+                      match (match ty' with CVec t | CSet t | CBTreeSet t => Some t | _ => None end) with
                       | Some inner =>
                           let+ xs :=
                             (fix go (els : list lit) : lres (list (gval * bool)) :=
                                match els with
                                | [] => LOk []
-                               | x :: r => let+ a := lit_into_ty x inner in let+ b := go r in LOk (a :: b)
+                               | x :: r => let+ a := lower true x inner in let+ b := go r in LOk (a :: b)
                                end) els in
                           let vs := map fst xs in
                           LOk (match ty' with CSet _ | CBTreeSet _ => GSet vs | _ => GList vs end, fl (const_flag xs))
@@ -482,15 +578,15 @@ Section Model.
                       end
                   | _ => LPanic PUnexpectedLiteral
                   end
-              | 19%nat => match l with LBool b => LOk (GBool b, fl true) | _ => LPanic PUnexpectedLiteral end
-              | 20%nat =>                                   (* (Int, Bool): `let b = *i <op> <n>` *)
+              | 20%nat => match l with LBool b => LOk (GBool b, fl true) | _ => LPanic PUnexpectedLiteral end
+              | 21%nat =>                                   (* (Int, Bool): `let b = *i <op> <n>` *)
                   match l with
                   | LInt z =>
                       let '(ne, n) := int_bool_test in
                       LOk (GBool (if ne then negb (z =? n) else (z =? n)), fl true)
                   | _ => LPanic PUnexpectedLiteral
                   end
-              | 22%nat =>                                   (* (Map, Adt Struct): a struct literal *)
+              | 23%nat =>                                   (* (Map, Adt Struct): a struct literal *)
                   match l, ty' with
                   | LMap m, CAdt n =>
                       match item n with
@@ -508,7 +604,7 @@ Section Model.
                                             match k with
                                             | LString s =>
                                                 if bytes_eqb s (lf_name f)
-                                                then (let+ x := lit_into_ty v (item_cty (lf_ty f)) in LOk (Some x))
+                                                then (let+ x := lower true v (item_cty (lf_ty f)) in LOk (Some x))
                                                 else go m'
                                             | _ => LPanic PKeyNotString
                                             end
@@ -531,56 +627,19 @@ Section Model.
                       end
                   | _, _ => LPanic PUnexpectedLiteral
                   end
-              | _ => LPanic PUnexpectedLiteral              (* 0 (Path) is handled above; 23 = the fall-through *)
+              | _ => LPanic PUnexpectedLiteral              (* 0 (Path) is handled above; 24 = the fall-through *)
+              end
               end
           end
       end.
 
-    (* mk_map of lit_as_rvalue *)
-    Definition mk_map (m : list (lit * lit)) (kt vt : cty) : lres (gval * bool) :=
-      let+ kvs := low_pairs lit_into_ty kt vt m in LOk (GMap kvs, false).
-
-    (* lit_as_rvalue: dispatch on the regenerated list; NO peel here (a typedef of a map type falls through) *)
-    Definition lit_as_rvalue (l : lit) (ty : cty) : lres (gval * bool) :=
-      match ckind ty with
-      | None => lit_into_ty l ty        (* an Adt whose item is missing is no map type: the fall-through arm *)
-      | Some ck =>
-          let i := select lit_as_rvalue_arms (lkind l) ck in
-          let fl := flag_of lit_as_rvalue_arms i false in
-          match i with
-          | 0%nat =>                                        (* (Map, LazyStaticRef(map)) *)
-              match l, ty with
-              | LMap m, CLazyStaticRef (CMap kt vt) | LMap m, CLazyStaticRef (CBTreeMap kt vt) =>
-                  let+ r := mk_map m kt vt in LOk (fst r, fl)
-              | LMap _, _ => LPanic PInvalidMapType
-              | _, _ => LPanic PUnexpectedLiteral
-              end
-          | 1%nat | 2%nat =>                                (* (Map, Map | BTreeMap) *)
-              match l, ty with
-              | LMap m, CMap kt vt | LMap m, CBTreeMap kt vt => let+ r := mk_map m kt vt in LOk (fst r, fl)
-              | _, _ => LPanic PUnexpectedLiteral
-              end
-          | 3%nat =>                                        (* (List, LazyStaticRef(map)): assert!(l.is_empty()) first *)
-              match l, ty with
-              | LList [], CLazyStaticRef (CMap _ _) | LList [], CLazyStaticRef (CBTreeMap _ _) => LOk (GMap [], fl)
-              | LList [], _ => LPanic PInvalidMapType
-              | LList (_ :: _), _ => LPanic PAssertEmpty
-              | _, _ => LPanic PUnexpectedLiteral
-              end
-          | 4%nat | 5%nat =>                                (* (List, Map | BTreeMap) *)
-              match l with
-              | LList [] => LOk (GMap [], fl)
-              | LList (_ :: _) => LPanic PAssertEmpty
-              | _ => LPanic PUnexpectedLiteral
-              end
-          | _ => lit_into_ty l ty
-          end
-      end.
+    Definition lit_as_rvalue : lit -> cty -> lres (gval * bool) := lower true.
+    Definition lit_into_ty : lit -> cty -> lres (gval * bool) := lower false.
 
     (* CodegenTy::should_lazy_static (NewType: as its inner type) *)
     Definition should_lazy_static (ty : cty) : bool :=
       match ckind (peel pfuel ty) with
-      | Some k => existsb (cpat_eqb k) lazy_static_kinds
+      | Some k => existsb (fun p => cmatch p k) lazy_static_kinds
       | None => false
       end.
 
